@@ -223,3 +223,97 @@ pub fn emit_module(spec: &Spec) -> String {
     s.push_str("}\n");
     s
 }
+
+// -------------------------------------------------------------------------------------------------
+// no_std / no-alloc flavour (C13)
+// -------------------------------------------------------------------------------------------------
+
+fn na_ret_type(r: &RetTy) -> String {
+    match r {
+        RetTy::Str => "&'static str".into(),
+        RetTy::Arb => "::microscpi::Arbitrary<'static>".into(),
+        RetTy::Chars => "::microscpi::Characters<'static>".into(),
+        RetTy::Tup(v) => format!("({})", v.iter().map(na_ret_type).collect::<Vec<_>>().join(", ")),
+        RetTy::HVec(t) => format!("::heapless::Vec<{}, 8>", na_ret_type(t)),
+        RetTy::Slice(t) => format!("&'static [{}]", na_ret_type(t)),
+        RetTy::SString => panic!("String responses allocate by definition; not part of the no-alloc fixture"),
+        other => ret_rust_type(other),
+    }
+}
+
+/// constant expression of the response type (depends on the declaration index only)
+fn na_ret_expr(r: &RetTy, id: usize) -> String {
+    match r {
+        RetTy::None => "()".into(),
+        RetTy::Int(t) => {
+            let (_, hi) = t.int_bounds();
+            if id % 2 == 0 { format!("{} as {}", (id as i128 * 7 + 1).min(hi), t.rust()) } else { format!("<{}>::MAX", t.rust()) }
+        }
+        RetTy::F32 => ["1.5e10f32", "-0.125f32", "f32::NAN", "3.4e38f32"][id % 4].into(),
+        RetTy::F64 => ["1.0e-7f64", "-12345.678f64", "f64::INFINITY", "1.7976931348623157e308f64"][id % 4].into(),
+        RetTy::Bool => (if id % 2 == 0 { "true" } else { "false" }).into(),
+        RetTy::Str => "\"st\\\"r,;\"".into(),
+        RetTy::HStr => "::heapless::String::<64>::try_from(\"hs\\\"x\").unwrap()".into(),
+        RetTy::Arb => "::microscpi::Arbitrary(b\"\\x00\\n#;0123456789\")".into(),
+        RetTy::Chars => "::microscpi::Characters(\"CHARS\")".into(),
+        RetTy::Err => "::microscpi::Error::Custom(-321, \"custom \\\"e\\\"\")".into(),
+        RetTy::Tup(v) => format!("({})", v.iter().enumerate().map(|(i, t)| na_ret_expr(t, id + i)).collect::<Vec<_>>().join(", ")),
+        RetTy::HVec(t) => format!(
+            "{{ let mut v = ::heapless::Vec::<_, 8>::new(); let _ = v.push({}); let _ = v.push({}); v }}",
+            na_ret_expr(t, id),
+            na_ret_expr(t, id + 1)
+        ),
+        RetTy::Slice(t) => match &**t {
+            RetTy::Int(Ty::I32) => "&[1i32, -2, 2147483647]".into(),
+            RetTy::Int(Ty::U8) => "&[0u8, 255]".into(),
+            RetTy::F64 => "&[0.5f64, -1e300]".into(),
+            _ => "&[true, false]".into(),
+        },
+        RetTy::SString => unreachable!(),
+    }
+}
+
+/// Emits a `no_std`-compatible module: handlers record `(id, checksum of the arguments)` into a
+/// fixed-capacity array and return constants; nothing in it allocates.
+pub fn emit_module_noalloc(spec: &Spec) -> String {
+    let mut s = String::new();
+    s.push_str(&format!("#[allow(dead_code, unused_variables, unused_parens, clippy::all)]\npub mod {} {{\n", spec.name));
+    s.push_str("    use ::microscpi as scpi;\n");
+    s.push_str("    pub struct I { pub calls: ::heapless::Vec<(u16, u32), 64>, pub dropped: u32, pub fail_mask: u64, pub queue: scpi::StaticErrorQueue<4> }\n");
+    s.push_str("    impl I {\n        pub fn new() -> Self { I { calls: ::heapless::Vec::new(), dropped: 0, fail_mask: 0, queue: scpi::StaticErrorQueue::new() } }\n");
+    s.push_str("        fn rec(&mut self, id: u16, sum: u32) -> Result<(), scpi::Error> {\n            if self.calls.push((id, sum)).is_err() { self.dropped += 1; }\n            if self.fail_mask >> (id % 64) & 1 == 1 { Err(scpi::Error::Custom(-(id as i16) - 1, \"handler \\\"failed\\\"\")) } else { Ok(()) }\n        }\n    }\n");
+    s.push_str("    pub trait Sum { fn sum(&self) -> u32; }\n");
+    for t in ["u8", "i8", "u16", "i16", "u32", "i32", "u64", "i64", "usize", "isize"] {
+        s.push_str(&format!("    impl Sum for {} {{ fn sum(&self) -> u32 {{ (*self as u64 as u32) ^ ((*self as u64 >> 32) as u32) }} }}\n", t));
+    }
+    s.push_str("    impl Sum for f32 { fn sum(&self) -> u32 { self.to_bits() } }\n");
+    s.push_str("    impl Sum for f64 { fn sum(&self) -> u32 { (self.to_bits() as u32) ^ ((self.to_bits() >> 32) as u32) } }\n");
+    s.push_str("    impl Sum for bool { fn sum(&self) -> u32 { *self as u32 } }\n");
+    s.push_str("    impl Sum for &str { fn sum(&self) -> u32 { self.as_bytes().iter().fold(self.len() as u32, |a, b| a.wrapping_mul(31).wrapping_add(*b as u32)) } }\n");
+    s.push_str("    impl Sum for &[u8] { fn sum(&self) -> u32 { self.iter().fold(self.len() as u32, |a, b| a.wrapping_mul(31).wrapping_add(*b as u32)) } }\n");
+    s.push_str("    impl scpi::ErrorCommands for I { fn error_queue(&mut self) -> &mut impl scpi::ErrorQueue { &mut self.queue } }\n");
+    s.push_str("    impl scpi::StandardCommands for I {}\n");
+    s.push_str("    #[scpi::interface(StandardCommands, ErrorCommands)]\n    impl I {\n");
+    for (id, d) in spec.decls.iter().enumerate() {
+        let params: Vec<String> = d.params.iter().enumerate().map(|(i, t)| format!("a{}: {}", i, t.rust())).collect();
+        let sums: Vec<String> = (0..d.params.len()).map(|i| format!("Sum::sum(&a{})", i)).collect();
+        let sum_expr = if sums.is_empty() { "0u32".to_string() } else { sums.join(".wrapping_mul(33) ^ ") };
+        s.push_str(&format!("        #[scpi(cmd = \"{}\")]\n", d.cmd));
+        s.push_str(&format!(
+            "        pub {}fn h{}(&mut self{}{}) -> Result<{}, scpi::Error> {{\n            self.rec({}, {})?;\n            Ok({})\n        }}\n",
+            if d.is_async { "async " } else { "" },
+            id,
+            if params.is_empty() { "" } else { ", " },
+            params.join(", "),
+            na_ret_type(&d.ret),
+            id,
+            sum_expr,
+            na_ret_expr(&d.ret, id)
+        ));
+    }
+    s.push_str("    }\n");
+    let js = serde_json::to_string(&spec_to_json(spec)).unwrap();
+    s.push_str(&format!("    pub const SPEC_JSON: &str = r####\"{}\"####;\n", js));
+    s.push_str("}\n");
+    s
+}
